@@ -1309,8 +1309,63 @@ let main_atmodel file =
     done with End_of_file -> ());
   Printf.printf "DONE ops=%d bad=%d\n" !nops !nbad
 
+
+(* icmodel: the inode cache under interleaved transactions, against the extracted IC (Model/IcacheModel.v);
+   values are whole encoded inodes (hex strings) *)
+let main_icmodel file =
+  let ic = open_in file in
+  let rec nat_of_int k = if k <= 0 then O else S (nat_of_int (k - 1)) in
+  let eqdec (a : ostring) (b : ostring) = a = b in
+  let st : ostring icstate option ref = ref None in
+  let nops = ref 0 and nbad = ref 0 and cur = ref "" in
+  let bad what = incr nbad; if !nbad <= 10 then Printf.printf "I %d BAD %s op=%s\n" !nops what (String.sub !cur 0 (min 40 (String.length !cur))) in
+  (try while true do
+      let line = input_line ic in
+      match split_on ' ' line with
+      | "IX" :: r -> bad ("harness:" ^ String.concat " " r)
+      | "IO" :: rest ->
+        incr nops; cur := String.concat " " rest;
+        (match !st with
+         | None -> ()
+         | Some s ->
+           let o = match rest with
+             | ["lock"; t; i] -> Some (ILock (nat_of_int (int_of_string t), n_of_string i))
+             | ["mod"; t; i; v] -> Some (IMod (nat_of_int (int_of_string t), n_of_string i, v))
+             | ["write"; t; i] -> Some (IWrite (nat_of_int (int_of_string t), n_of_string i))
+             | ["commit"; t] -> Some (ICommit (nat_of_int (int_of_string t)))
+             | ["abort"; t] -> Some (IAbort (nat_of_int (int_of_string t)))
+             | _ -> None in
+           (match o with
+            | None -> ()
+            | Some o ->
+              (match icstep eqdec "" s o with
+               | Some s' -> st := Some s'
+               | None -> bad "guard:the model does not allow this step")))
+      | "IS" :: toks ->
+        let rec triples l acc = match l with
+          | i :: dv :: cv :: r -> triples r ((n_of_string i, dv, cv) :: acc)
+          | _ -> List.rev acc in
+        let tr = triples (List.filter (fun x -> x <> "") toks) [] in
+        (match !st with
+         | None -> st := Some (ic_make (List.map (fun (i, dv, _) -> (i, dv)) tr))
+         | Some s ->
+           List.iter (fun (i, dv, cv) ->
+               (match ic_disk_at s i with
+                | Some v when v = dv -> ()
+                | _ -> bad (Printf.sprintf "disk:inode %d committed contents differ from the model" (int_of_n i)));
+               (match ic_cache_at s i, cv with
+                | None, "-" -> ()
+                | Some v, c when v = c -> ()
+                | None, _ -> bad (Printf.sprintf "cache:inode %d cached by the server, not in the model" (int_of_n i))
+                | Some _, "-" -> bad (Printf.sprintf "cache:inode %d cached in the model, not by the server" (int_of_n i))
+                | Some _, _ -> bad (Printf.sprintf "cache:inode %d cached copy differs from the model" (int_of_n i)))) tr)
+      | _ -> ()
+    done with End_of_file -> ());
+  Printf.printf "DONE ops=%d bad=%d\n" !nops !nbad
+
 let () =
   match Array.to_list Sys.argv with
+  | _ :: "icmodel" :: file :: _ -> main_icmodel file
   | _ :: "atmodel" :: file :: _ -> main_atmodel file
   | _ :: "dirmodel" :: file :: _ -> main_dirmodel file
   | _ :: "c15" :: file :: rest -> main_c15 file (rest = ["full"])
